@@ -100,7 +100,9 @@ def keyfn(b):
 def run(tier):
     chk = Check(PROP, tier)
     chk.model("MC_CmpNaf", cfg="MC_CmpNaf.cfg" if tier == "quick" else "MC_CmpNaf_thorough.cfg")
-    chk.exec_and_validate("T_Util", gen(chk, tier), keyfn)
+    cmds_ = gen(chk, tier)
+    chk.exec_and_validate("T_Util", cmds_, keyfn)
+    chk.first_use("T_Util", cmds_, keyfn)
     return chk.finish(
         "model_checking",
         "model: the borrow-chain comparison and the recoding loop as coded (CmpNaf.tla) against the definitions "
